@@ -9,9 +9,12 @@ ASPECTS = {'C01': ('actions', 'state'), 'C02': ('offers', 'state', 'actions', 'i
 
 def scenarios(seed, tier, failed):
     hosts = ('HsmEventProcessor', 'InstrumentedHsmEventProcessor', 'HsmWithQueues')
-    for sc in charts.standard_scenarios(seed, tier, hosts=hosts, spy_options=(False, True), with_queries=True):
+    for k, sc in enumerate(charts.standard_scenarios(seed, tier, hosts=hosts, spy_options=(False, True), with_queries=True)):
         if 'C22' == 'C03':
             sc['events'] = []
+        if k % 6 == 1 and sc.get('queries'):
+            # spy-decorated states on a chart without instrumentation: the wrappers still keep the two names
+            sc['host'], sc['spy'] = 'HsmEventProcessor', True
         yield sc
 
 
